@@ -122,9 +122,10 @@ class BloomSuite(Suite):
                 seq.append(("rem", h, key, self.gen_amount(rng)))
             elif k < 0.66 and len(have) > 1:
                 a, b = rng.sample(sorted(have), 2) if rng.random() < 0.8 else (h, h)
-                seq.append((rng.choice(["union", "inter", "jacc"]), 3, a, b))
+                r = rng.choice([3, 6])
+                seq.append((rng.choice(["union", "inter", "jacc", "jacc"]), r, a, b))
                 if seq[-1][0] != "jacc":
-                    have.add(3)
+                    have.add(r)
             elif k < 0.74:
                 seq.append(("export", h, rng.choice(["bytes", "file", "fileobj", "hex", "cheader"])))
             elif k < 0.82:
